@@ -86,7 +86,7 @@ def detect(names, tier, runs=None):
         finally:
             sh("git -C /repo worktree remove --force %s" % wt)
         lines = [l for l in o.splitlines() if l.startswith("VIOLATION") or l.startswith("  C") or "MACHINERY" in l or "BUILD FAILED" in l]
-        sigs = [l.strip().split(":")[0] for l in o.splitlines() if l.startswith("  C")]
+        sigs = [l.strip().split(": ")[0] for l in o.splitlines() if l.startswith("  C")]
         verdict = "DETECTED" if c == 1 else ("missed" if c == 0 else "machinery-error(exit %d)" % c)
         rec = {"name": name, "check": cmd, "exit": c, "verdict": verdict, "signatures": sigs, "wall_s": round(time.time() - t0, 1), "output_tail": o.strip().splitlines()[-12:]}
         json.dump(rec, open(os.path.join(d, "detect.json"), "w"), indent=1)
